@@ -36,6 +36,8 @@ JudgeForm(c, P, f) ==
              IF "rschema" \notin DOMAIN c \/ "resolve" \notin DOMAIN f THEN Cl(tag("C12.resolve"), "skip")
              ELSE LET R == Parse(c.rschema) IN
                   IF ~R.ok \/ c.wbytes # enc.b THEN Cl(tag("C12.resolve"), "skip")
+                  \* two named types with one simple name: resolution matches by unqualified name, which of them is meant is not pinned
+                  ELSE IF \E a, b \in DOMAIN names \cup DOMAIN R.st.names : a # b /\ Unqual(a) = Unqual(b) THEN Cl(tag("C12.resolve"), "unspec")
                   ELSE LET x == Resolve(t, R.t, c.wbytes, names, R.st.names) IN
                        IF x.st = "ok" THEN Tri(tag("C12.resolve"), f.resolve.ok /\ VEq(f.resolve.v, x.v) /\ f.resolve.pos = Len(c.wbytes))
                        ELSE IF x.st = "raise" THEN Tri(tag("C12.resolve"), ~f.resolve.ok /\ \E i \in 1..Len(f.resolve.exc) : f.resolve.exc[i] = "SchemaResolutionError")
